@@ -57,6 +57,10 @@ def configs(tier):
                             tags=['tree', g] + (['R0'] if R0 else [])))
             if g in (('P3', 'S3') if tier == 'quick' else ('P3', 'S3', 'P4')) and len(I0) == 1 and not R0:
                 out.append(dict(family='tree', entry='SIR_pair_based_pure_IC', graph=g, I0=I0, R0=R0, weighted=True, order=4, tags=['tree', g, 'weighted']))
+            if g in (('P3', 'S3') if tier == 'quick' else ('P3', 'S3', 'P4')) and len(I0) == 2 and not R0:
+                # several seeds around one susceptible node with unequal edge weights (each edge's own rate in the triple terms)
+                out.append(dict(family='tree', entry='SIR_pair_based_pure_IC', graph=g, I0=I0, R0=R0, weighted=True, order=3 if tier == 'quick' else 4,
+                                tags=['tree', g, 'weighted', 'multi-seed']))
     out.append(dict(family='triangle', entry='SIR_pair_based_pure_IC', graph='K3', I0=[0], R0=[], weighted=False, order=5, tags=['triangle']))
     for g in ['paw', 'irr5']:
         for name in SIS_GRAPH + SIR_GRAPH + ['SIS_individual_based', 'SIR_individual_based', 'SIS_pair_based', 'SIR_pair_based']:
